@@ -585,7 +585,10 @@ def e_metric(which):
             return (lambda X, N: s.get_snr(X, N, axis=ax, keepdims=bool(ax is not None))), dict(X=X, N=Nn), lab + ' axis=%s' % ax
         if which == 'set_snr':
             snr = float(rng.uniform(-10, 20))
-            return (lambda X, N: s.set_snr(X, N, snr, axis=ax, inplace=False)), dict(X=X, N=Nn), lab + ' axis=%s' % ax
+            # a falsy flag is a falsy flag whatever its Python type (a numpy comparison yields np.bool_, a config file 0)
+            flag = [False, np.bool_(False), 0, np.array(5) < 3][int(rng.integers(0, 4))]
+            return (lambda X, N: s.set_snr(X, N, snr, axis=ax, inplace=flag)), dict(X=X, N=Nn), \
+                lab + ' axis=%s inplace=%s:%r' % (ax, type(flag).__name__, flag)
         raise KeyError(which)
     return build
 
